@@ -2,7 +2,9 @@ package props
 
 import (
 	"context"
+	"crypto/rand"
 	"fmt"
+	"io"
 	"strings"
 	"testing"
 	"time"
@@ -29,6 +31,10 @@ type C14Scenario struct {
 	How    string          `json:"how"`   // how the presented credentials differ
 	Retry  string          `json:"retry"` // "" | fail-then-retry (same Auth value, new connection) | redial (same Client, second connection)
 	Sched  uint64          `json:"sched"`
+	// RandShort: the process's source of randomness (crypto/rand.Reader) returns short reads
+	// without an error, as an io.Reader may: every other Read delivers nothing. A nonce must
+	// still be made of fresh bytes.
+	RandShort bool `json:"randShort,omitempty"`
 }
 
 type c14 struct{}
@@ -218,6 +224,9 @@ func (p *c14) Gen(seed uint64, i int, tier string) (any, bool) {
 		// carried over)
 		sc.Retry = "redial"
 	}
+	if scram && sc.Retry != "" && r.Chance(1, 2) {
+		sc.RandShort = true
+	}
 	// the outcome must not depend on whether the dialogue is being logged
 	if r.Chance(1, 3) {
 		sc.Client.Debug = true
@@ -238,6 +247,11 @@ func (p *c14) Exec(t *testing.T, scAny any) Outcome {
 			env.Srv.Cfg.Rules = append(env.Srv.Cfg.Rules, refsmtpd.Rule{Verb: "AUTHRESP", Nth: 2, Conn: 1, Action: refsmtpd.Action{Code: 454, Text: "temporary authentication failure"}})
 		}
 		return func() {
+			if sc.RandShort {
+				old := rand.Reader
+				rand.Reader = &shortReader{r: old}
+				defer func() { rand.Reader = old }()
+			}
 			c, err := BuildClient(sc.Client, env.Dial, &CaptureLogger{})
 			if err != nil {
 				out.Infra = err.Error()
@@ -405,4 +419,18 @@ func (p *c14) Info() PropInfo {
 		Exhaustive:  func(string) bool { return false },
 		QuickBudget: 100 * time.Second, ThoroughBudget: 25 * time.Minute,
 	}
+}
+
+// shortReader delivers nothing on every other Read (and no error): a legal io.Reader.
+type shortReader struct {
+	r io.Reader
+	n int
+}
+
+func (s *shortReader) Read(p []byte) (int, error) {
+	s.n++
+	if s.n%2 == 1 {
+		return 0, nil
+	}
+	return s.r.Read(p)
 }
